@@ -108,6 +108,11 @@ impl<'a> Runner<'a> {
     }
 
     pub fn op(&mut self, op: String) -> String {
+        if self.buf.len() > 60_000 {
+            // runaway case (only possible on a broken sender): stop executing, keep what was observed
+            self.dead = true;
+            return "none".into();
+        }
         let mut o = Oracle::default();
         let obs = self.eng.exec(&op, &mut o);
         for (c, d) in o.fails {
@@ -140,6 +145,8 @@ impl<'a> Runner<'a> {
                     if zero_dur { "C12:read-does-not-terminate-fdt-duration-0" } else { "C12:read-does-not-terminate" },
                     &format!("more than {} consecutive packets from read() at the fixed instant {}", cap, self.now - T0),
                 );
+                // the case is abandoned: nothing below may loop on a sender that never idles
+                self.dead = true;
                 return n;
             }
         }
